@@ -427,14 +427,20 @@ func TestVerifC11Run(t *testing.T) {
 			{Algo: "frost", Flow: "run", N: 5, T: 2, Vals: 1},
 		}
 	} else {
-		// quick: one append scenario (= one plain ceremony, its artefacts checked, then the add-validators ceremony);
+		// quick: one append scenario (= one plain ceremony, its artefacts checked, then the add-validators ceremony)
 		// the algorithm and the shape rotate with the seed
 		shapes := []c11rCeremony{
 			{Algo: "frost", Flow: "append", N: 3, T: 2, Vals: 2, Add: 1},
 			{Algo: "pedersen", Flow: "append", N: 3, T: 2, Vals: 1, Add: 2},
 			{Algo: "default", Flow: "append", N: 4, T: 3, Vals: 1, Add: 1},
 		}
-		todo = []c11rCeremony{shapes[(seed-1+len(shapes)*1000)%len(shapes)]}
+		ap := shapes[(seed-1+len(shapes)*1000)%len(shapes)]
+		other := "pedersen"
+		if ap.Algo == "pedersen" {
+			other = "frost"
+		}
+		// ... plus one small plain ceremony of the other algorithm, so that both are run through dkg.Run every time
+		todo = []c11rCeremony{ap, {Algo: other, Flow: "run", N: 3, T: 2, Vals: 1}}
 	}
 	for i := range todo {
 		c := &todo[i]
